@@ -216,6 +216,12 @@ func c07(c *Ctx) {
 					}
 				}
 			}
+			if !okLoop {
+				// the table starts as a copy of a package-level template that is filled, slot by slot, exactly once
+				if cp := templateCopy(p, mi, table, n); cp != nil {
+					okLoop, loopStore = true, cp
+				}
+			}
 			r.Check(okLoop, "C07.R3", "every slot defaulted in MakeInterface", p.Pos(mi.Pos()), "for i in 0..len(table): table[i] = notImplemented", "not every slot of the fabricated method table is defaulted to the not-implemented routine: calling an un-mocked method jumps to address 0 / garbage instead of panicking with 'method not implements'")
 			after := okLoop && okSlot && loopStore != nil && slotStore != nil && !reachableAfter(slotStore, loopStore)
 			r.Check(okSlot && after, "C07.R3", "mocked slot set after defaulting in MakeInterface", p.Pos(mi.Pos()), "table[index] = stub after the default loop", "the mocked slot is not stored at the requested index after the defaulting loop (it is overwritten by the default or stored elsewhere)")
@@ -296,22 +302,33 @@ func c07(c *Ctx) {
 		var idxCall *ssa.Call
 		eachInstr(pi, func(i ssa.Instruction) {
 			if cl, ok := i.(*ssa.Call); ok {
-				if cal := staticCallee(cl.Common()); cal != nil && relPkg(cal) == "internal/proxy" && cal.Signature.Results().Len() == 1 && isIntegerType(cal.Signature.Results().At(0).Type()) {
-					idxCall = cl
+				// the index finder: result #0 is the integer index (a second result may report whether the name was found)
+				if cal := staticCallee(cl.Common()); cal != nil && relPkg(cal) == "internal/proxy" && cal.Signature.Results().Len() >= 1 && cal.Signature.Results().Len() <= 2 && isIntegerType(cal.Signature.Results().At(0).Type()) {
+					if cal.Signature.Results().Len() == 1 || isBool(cal.Signature.Results().At(1).Type()) {
+						idxCall = cl
+					}
 				}
 			}
 		})
 		okIdx := idxCall != nil
+		isIdx := func(v ssa.Value) bool {
+			v = resolveLocal(v)
+			if v == ssa.Value(idxCall) {
+				return true
+			}
+			ex, ok := v.(*ssa.Extract)
+			return ok && ex.Tuple == ssa.Value(idxCall) && ex.Index == 0
+		}
 		eachInstr(pi, func(i ssa.Instruction) {
 			if ia, ok := i.(*ssa.IndexAddr); ok {
 				if _, fv, ok := fieldRef(ia.X); ok && fv != nil && fv.Name() == "Fun" {
-					if resolveLocal(ia.Index) != ssa.Value(idxCall) {
+					if !isIdx(ia.Index) {
 						okIdx = false
 					}
 				}
 			}
 			if cl, ok := i.(*ssa.Call); ok && strings.HasSuffix(calleeName(cl.Common()), "MakeInterface") {
-				if resolveLocal(cl.Call.Args[1]) != ssa.Value(idxCall) {
+				if !isIdx(cl.Call.Args[1]) {
 					okIdx = false
 				}
 			}
@@ -428,4 +445,133 @@ func samePath(a, b ssa.Instruction) bool {
 		return true
 	}
 	return reachableAfter(a, b) || reachableAfter(b, a)
+}
+
+// templateCopy: the local method table of mi is initialised by copying (by value) a package-level array that is written
+// only inside one function run through (*sync.Once).Do before the copy, where a loop over 0..n-1 stores the address of the
+// not-implemented routine into every slot. Returns the copying store, or nil.
+func templateCopy(p *Prog, mi *ssa.Function, table *ssa.Alloc, n int64) *ssa.Store {
+	var cp *ssa.Store
+	for _, ref := range *table.Referrers() {
+		if st, ok := ref.(*ssa.Store); ok && st.Addr == ssa.Value(table) {
+			if cp != nil {
+				return nil
+			}
+			cp = st
+		}
+	}
+	if cp == nil {
+		return nil
+	}
+	// the copied value is a load of global g that a Once.Do dominates
+	onceBefore := func(f *ssa.Function, at ssa.Instruction) *ssa.Function {
+		var fn *ssa.Function
+		eachInstr(f, func(i ssa.Instruction) {
+			cl, ok := i.(*ssa.Call)
+			if !ok || calleeName(cl.Common()) != "(*sync.Once).Do" || !domInstr(cl, at) {
+				return
+			}
+			switch x := cl.Call.Args[1].(type) {
+			case *ssa.MakeClosure:
+				fn, _ = x.Fn.(*ssa.Function)
+			case *ssa.Function:
+				fn = x
+			}
+		})
+		return fn
+	}
+	globalLoad := func(v ssa.Value) *ssa.Global {
+		u, ok := resolveLocal(v).(*ssa.UnOp)
+		if !ok || u.Op != token.MUL {
+			return nil
+		}
+		g, _ := u.X.(*ssa.Global)
+		return g
+	}
+	var g *ssa.Global
+	var filler *ssa.Function
+	if g = globalLoad(cp.Val); g != nil {
+		if ld, ok := resolveLocal(cp.Val).(ssa.Instruction); ok {
+			filler = onceBefore(mi, ld)
+		}
+	} else if cl, ok := resolveLocal(cp.Val).(*ssa.Call); ok {
+		cal := staticCallee(cl.Common())
+		if cal == nil || cal.Blocks == nil || !strings.HasPrefix(pkgPathOf(cal), Mod) || cal.Signature.Results().Len() != 1 {
+			return nil
+		}
+		for _, ret := range returnsOf(cal) {
+			rg := globalLoad(ret.Results[0])
+			if rg == nil || (g != nil && rg != g) {
+				return nil
+			}
+			g = rg
+			f2 := onceBefore(cal, resolveLocal(ret.Results[0]).(ssa.Instruction))
+			if f2 == nil || (filler != nil && f2 != filler) {
+				return nil
+			}
+			filler = f2
+		}
+	}
+	if g == nil || filler == nil {
+		return nil
+	}
+	// g is written only in the filler, by the defaulting loop; elsewhere it is only loaded as a whole
+	okFill := false
+	for _, f := range p.Funcs {
+		if !strings.HasPrefix(pkgPathOf(f), Mod) || f.Blocks == nil {
+			continue
+		}
+		bad := false
+		eachInstr(f, func(i ssa.Instruction) {
+			for _, op := range i.Operands(nil) {
+				if *op != ssa.Value(g) {
+					continue
+				}
+				switch x := i.(type) {
+				case *ssa.UnOp:
+				case *ssa.IndexAddr:
+					if f != filler {
+						bad = true
+						return
+					}
+					for _, r2 := range *x.Referrers() {
+						st, ok := r2.(*ssa.Store)
+						if !ok || st.Addr != ssa.Value(x) {
+							bad = true
+							return
+						}
+						first, step, okL := loopIndex(x.Index)
+						bounded := false
+						for _, gd := range guardsAt(st.Block()) {
+							if bo, ok := gd.Cond.(*ssa.BinOp); ok && bo.Op == token.LSS && gd.Pol && bo.X == x.Index {
+								if cv, ok := constInt(bo.Y); ok && cv == n {
+									bounded = true
+								}
+							}
+						}
+						fromPtr := false
+						for _, a := range origins(st.Val) {
+							if c2, ok := a.V.(*ssa.Call); ok && calleeName(c2.Common()) == "(reflect.Value).Pointer" {
+								fromPtr = true
+							}
+						}
+						if okL && first == 0 && step == 1 && bounded && fromPtr {
+							okFill = true
+						} else {
+							bad = true
+						}
+					}
+				default:
+					bad = true
+				}
+			}
+		})
+		if bad {
+			return nil
+		}
+	}
+	if !okFill {
+		return nil
+	}
+	return cp
 }
